@@ -28,6 +28,7 @@ package cdata
 //@   ensures [C03.set-header-untouched] nd.Start == old(nd.Start) && nd.OffsetStep == old(nd.OffsetStep) && nd.Dims == old(nd.Dims) && nd.Impl == old(nd.Impl)
 
 //@ func (*nd{t}C).Slice(nd, loc, dims, step) returns (r)
+//@   locals result
 //@   safety C03
 //@   requires len(nd.Offset) == len(nd.OffsetStep) && len(nd.Step) == len(nd.OffsetStep) && len(loc) <= len(nd.OffsetStep)
 //@   requires step == nil || len(step) >= len(nd.OffsetStep)
@@ -51,6 +52,7 @@ package cdata
 //@   ensures [C03.set1-footprint] nd.Impl[nd.Start + loc*nd.OffsetStep[0]] == val && forall(p, 0, nd.Impl.buflen, implies(p != nd.Start + loc*nd.OffsetStep[0], nd.Impl[p] == old(nd.Impl[p])))
 
 //@ func (*nd{t}C).Get1(nd, loc) returns (r)
+//@   locals idx, i
 //@   safety C03
 //@   requires len(nd.Dims) == 1 && len(nd.OffsetStep) >= 1
 //@   requires 0 <= nd.Start + loc*nd.OffsetStep[0] && nd.Start + loc*nd.OffsetStep[0] < nd.Impl.buflen
@@ -89,6 +91,7 @@ package cdata
 
 // the constructor wraps the caller's buffer in a well-formed root view
 //@ func new{t}CArray(impl, dims) returns (r)
+//@   locals result
 //@   safety C03
 //@   requires len(dims) >= 1
 //@   fresh r
@@ -101,6 +104,7 @@ package cdata
 // ---- bulk operations of the C back-end against the same row-major definitions as the Go back-end (C02, C03) ----
 
 //@ func (*nd{t}C).Unroll(nd) returns (r)
+//@   locals length, res, dimOffsets, i, loc
 //@   simplify entry-ids
 //@   safety C03
 //@   uses C02.lemma-iprod-positive, C02.lemma-idot-rm
@@ -116,6 +120,7 @@ package cdata
 //@   loop 0 invariant implies(i < length, 0 <= nd.Start + rmaddr(nd.Dims, nd.OffsetStep, i, len(nd.Dims), len(nd.Dims)) && nd.Start + rmaddr(nd.Dims, nd.OffsetStep, i, len(nd.Dims), len(nd.Dims)) < nd.Impl.buflen)
 
 //@ func (*nd{t}C).Apply(nd, loc, dim, step, vals)
+//@   locals sliceDim, sliceStep, start, i, v
 //@   simplify entry-ids
 //@   safety C03
 //@   callsite Set instantiate C01.lemma-idot-upd(old(seq(loc)), seq(loc), seq(nd.OffsetStep), dim, len(loc))
@@ -138,6 +143,7 @@ package cdata
 // ---- ApplySlice / CopyFrom of the C back-end (BOUNDED: rank <= 3, extents symbolic) ----
 
 //@ func (*nd{t}C).ApplySlice(nd, loc, step, vals)
+//@   locals shape, slice, idx, size, pos
 //@   ndmodel rowmajor
 //@   simplify entry-ids
 //@   bounded rank <= 3 (the mixed-radix successor lemma is proved for ranks 1, 2 and 3; extents, strides and steps are symbolic)
